@@ -97,9 +97,13 @@ structure St where
   craftedPass : Nat := 0
   ck : Nat := 0
   f4 : Nat := 0
+  otherFail : Nat := 0
+
+/-- at most this many lines of each kind are printed (all are counted in the summary). -/
+def printCap : Nat := 200
 
 def mismatch (s : St) (msg : String) : St × Array String :=
-  ({ s with mism := s.mism + 1 }, #[s!"MISMATCH line {s.lineNo}: {msg}"])
+  ({ s with mism := s.mism + 1 }, if s.mism < printCap then #[s!"MISMATCH line {s.lineNo}: {msg}"] else #[])
 
 def isSfx : Part → Bool
   | .sfx .. => true
@@ -124,8 +128,10 @@ def replayOf (s : St) (c : Cur) (qx : String) (last : String) : String :=
   " ;; ".intercalate ([s.newLine] ++ encL ++ [c.openLine] ++ (if c.warmed then ["own => plain"] else []) ++ [last])
 
 def monitorFail (s : St) (opS obs sig replay : String) : St × Array String :=
-  ({ s with monFail := s.monFail + 1, f4 := s.f4 + (if sig == f4Signature then 1 else 0) },
-   #[s!"MONITOR-FAIL line {s.lineNo}: {opS} => {obs} signature: {sig} replay: {replay}"])
+  let isF4 := sig == f4Signature
+  let shown := if isF4 then s.f4 < printCap else s.otherFail < printCap
+  ({ s with monFail := s.monFail + 1, f4 := s.f4 + (if isF4 then 1 else 0), otherFail := s.otherFail + (if isF4 then 0 else 1) },
+   if shown then #[s!"MONITOR-FAIL line {s.lineNo}: {opS} => {obs} signature: {sig} replay: {replay}"] else #[])
 
 /-- one (session p, record of q) pair: prediction + monitor. Returns the new state and messages. -/
 def checkPair (s : St) (c : Cur) (qx : String) (q ik : Bytes) (obs : String) (asLine : String) : St × Array String :=
@@ -274,7 +280,7 @@ def step (s : St) (line : String) : St × Array String :=
 
 def finish (s : St) : Array String :=
   #[s!"SUMMARY engine=partition cases={s.cases} ops={s.ops} mismatches={s.mism} monitor_fail={s.monFail} " ++
-    s!"pairs={s.pairs} foreign={s.foreign} related={s.related} accepted_foreign={s.accepted} f4={s.f4} own_ok={s.ownOk} " ++
+    s!"pairs={s.pairs} foreign={s.foreign} related={s.related} accepted_foreign={s.accepted} f4={s.f4} other_fail={s.otherFail} own_ok={s.ownOk} " ++
     s!"refused={s.refused} suffixed_cases={s.sfxCases} crafted={s.crafted} crafted_pass_guard={s.craftedPass} cachekeys={s.ck}"]
 
 def engine : Engine St := { init := {}, step := step, finish := finish }
